@@ -111,14 +111,16 @@ def run_functions(keys, tier, extra=None, procs=None, expected_fail=()):
     # an `unknown` may be a time-out under load: retry alone, one after the other, with a 6x budget,
     # before anything is made of it
     retry = [i for i in todo if done[i]['status'] == 'unknown' and _OBS[i][2] != 'expected-fail']
-    if retry and len(retry) <= 6:
+    if retry and len(retry) <= 8:
         for i in retry:
             fi, ob, t = _OBS[i]
             ob.status = None
-            smt.discharge(ob, 'retry')
-            rec = verify.obligation_record(ob)
-            rec['retried'] = True
-            done[i] = rec
+            _OBS[i] = (fi, ob, 'retry')
+        ctx = multiprocessing.get_context('fork')
+        with ctx.Pool(min(procs, len(retry))) as pool:
+            for i, rec in pool.imap_unordered(_discharge, retry, chunksize=1):
+                rec['retried'] = True
+                done[i] = rec
     for i, (fi, ob, t) in enumerate(_OBS):
         recs[fi].append(done[i] if i in done else verify.obligation_record(ob))
     out = []
@@ -242,8 +244,15 @@ def check_property(pid, tier='quick', seed=0):
     replay_dir = os.path.join(HERE, 'replays', pid)
     if os.environ.get('PYVC_EVIDENCE_DIR'):
         replay_dir = os.path.join(os.environ['PYVC_EVIDENCE_DIR'], 'replays', pid)
-    for (r, o, _) in rest:
-        verdict, path = classify_failure(pid, r, o, tier, replay_dir)
+    global _CLASSIFY
+    _CLASSIFY = [(pid, r, o, tier, replay_dir) for (r, o, _) in rest]
+    if len(_CLASSIFY) > 1:
+        ctx = multiprocessing.get_context('fork')
+        with ctx.Pool(min(16, len(_CLASSIFY))) as pool:
+            verdicts = pool.map(_classify, range(len(_CLASSIFY)), chunksize=1)
+    else:
+        verdicts = [_classify(i) for i in range(len(_CLASSIFY))]
+    for (r, o, _), (verdict, path) in zip(rest, verdicts):
         if verdict == 'violation':
             violations.append((r, o, path, ''))
         elif verdict == 'violation-noinput':
@@ -325,6 +334,18 @@ def load_baseline(pid):
     if not os.path.exists(p):
         return None
     return set(norm_name(n) for n in json.load(open(p)))
+
+
+_CLASSIFY = []
+
+
+def _classify(i):
+    try:
+        return classify_failure(*_CLASSIFY[i])
+    except Exception as e:      # a crash of the counter-model search is not a verdict
+        import traceback
+        traceback.print_exc()
+        return ('undecided', 'classification failed: %s' % e)
 
 
 def classify_failure(pid, r, o, tier, replay_dir):
